@@ -4,7 +4,7 @@
 wt="$1"; cd "$wt" || exit 2
 export CARGO_TARGET_DIR="$wt/target" CARGO_NET_OFFLINE=true
 demo=""
-for f in tests/demo_mutant.rs examples/demo_mutant.rs demo.sh; do [ -f "$f" ] && demo="$f" && break; done
+for f in demo.sh tests/demo_mutant.rs examples/demo_mutant.rs; do [ -f "$f" ] && demo="$f" && break; done
 [ -z "$demo" ] && { echo "NO DEMO"; exit 2; }
 run_demo() {
   case "$demo" in
